@@ -586,6 +586,9 @@ class DestHandler:
                 self._start_deferred_lost_segment_handling()
             else:
                 self._checksum_verify()
+                if self.states.state == CfdpState.IDLE:
+                    # The transaction was abandoned by the fault handler.
+                    return
                 self.states.step = TransactionStep.TRANSFER_COMPLETION
 
     def _start_transaction(self, metadata_pdu: MetadataPdu) -> bool:
@@ -730,6 +733,9 @@ class DestHandler:
         if not self._params.fp.metadata_only:
             self.states.step = TransactionStep.RECEIVING_FILE_DATA
             self._init_vfs_handling(Path(metadata_pdu.source_file_name).name)  # type: ignore
+            if self.states.state == CfdpState.IDLE:
+                # The transaction was abandoned by the fault handler.
+                return
         else:
             self.states.step = TransactionStep.TRANSFER_COMPLETION
         msgs_to_user_list = None
@@ -942,6 +948,9 @@ class DestHandler:
         ):
             # We are done and have received everything.
             self._checksum_verify()
+            if self.states.state == CfdpState.IDLE:
+                # The transaction was abandoned by the fault handler.
+                return
             self.states.step = TransactionStep.TRANSFER_COMPLETION
             self._params.acked_params.deferred_lost_segment_detection_active = False
             return
@@ -1172,6 +1181,9 @@ class DestHandler:
         if self._params.check_timer.timed_out():
             if self._checksum_verify():
                 self._file_transfer_complete_transition()
+                return
+            if self.states.state == CfdpState.IDLE:
+                # The transaction was abandoned by the fault handler.
                 return
             if self._params.current_check_count + 1 >= self._params.remote_cfg.check_limit:
                 self._declare_fault(ConditionCode.CHECK_LIMIT_REACHED)
